@@ -280,7 +280,69 @@ var variants = []variant{
 
 // the seven states of the property text, plus the one the calibration showed to
 // matter: a stream "opened" by a HEADERS block the server rejected as malformed
-var states = []string{"idle", "open", "half-closed-remote", "half-closed-remote-short-body", "half-closed-remote-short-body-trailers", "closed-end-stream", "closed-client-rst", "closed-server-rst", "reset-in-flight", "rejected-malformed-headers"}
+var states = []string{"idle", "open", "half-closed-remote", "half-closed-remote-short-body", "half-closed-remote-short-body-trailers", "closed-end-stream", "closed-client-rst", "closed-server-rst", "reset-in-flight", "rejected-malformed-headers", ceState}
+
+// ceState: a frame that must draw a connection error (and nothing else) has been
+// sent while the client is not reading and the server's frame writer is blocked,
+// so the GOAWAY is still queued when the frames after it arrive; the target
+// stream is idle (above the offending frame's id). Nothing sent after the
+// offending frame may be served (5.4.1), the GOAWAY must carry the code of the
+// offending frame, and the connection ends.
+const ceState = "conn-error-in-flight"
+
+// frames for which the reference allows a connection error and nothing else and
+// which the server can only find out about after it has read the whole frame
+type ceFrame struct {
+	name  string
+	build func(X uint32) []byte
+}
+
+var connErrFrames = []ceFrame{
+	{"data-on-idle-stream", func(X uint32) []byte { return h2peer.RawFrame(0, 0, X, []byte("abc")) }},
+	{"rst-stream-on-idle-stream", func(X uint32) []byte { return h2peer.RawFrame(3, 0, X, u32(8)) }},
+	{"window-update-on-idle-stream", func(X uint32) []byte { return h2peer.RawFrame(8, 0, X, u32(100)) }},
+	{"settings-enable-push-2", func(X uint32) []byte { return h2peer.RawFrame(4, 0, 0, setting(2, 2)) }},
+	{"push-promise-from-client", func(X uint32) []byte {
+		return h2peer.RawFrame(5, fEH, X, cat(u32(2), block(reqFields(2, "GET", -1, ""))))
+	}},
+	{"window-update-connection-overflow", func(X uint32) []byte { return h2peer.RawFrame(8, 0, 0, u32(0x7fffffff)) }},
+	{"data-on-idle-stream-end-stream", func(X uint32) []byte { return h2peer.RawFrame(0, fES, X, nil) }},
+}
+
+// connErrorInFlight: reads held, writer made busy, then frame k of connErrFrames
+// on the idle id X - all without a fence. It returns false (and sends nothing
+// after the hold) when the reference does not classify the frame as "connection
+// error and nothing else" in the current state.
+func (c *conn) connErrorInFlight(k int, X uint32) bool {
+	ce := connErrFrames[k%len(connErrFrames)]
+	f := ce.build(X)
+	if typ := f[3]; typ == 1 || typ == 9 {
+		panic("connErrFrames must not carry a header block the reference would decode twice")
+	}
+	if v := c.ref.Expect(f); v.Kind != "CE" || v.Default() != h2peer.OutConnErr || v.AllowOK {
+		return false
+	}
+	c.exec(Step{Op: "hold", Label: ceState})
+	s := frameStep("busy-writer", h2peer.RawFrame(6, 0, 0, []byte("c13hold!")))
+	s.NoFence = true
+	c.exec(s)
+	s = frameStep("draw-connection-error:"+ce.name, f)
+	s.NoFence = true
+	c.exec(s)
+	return true
+}
+
+// behindConnError: (after connErrorInFlight and whatever else the script sent)
+// a well-formed request on a fresh id, a barrier, and the reads are released.
+func (c *conn) behindConnError(p uint32) {
+	s := frameStep("request-behind-connection-error", getES(p))
+	s.NoFence = true
+	c.exec(s)
+	s = frameStep("barrier", barrier())
+	s.NoFence = true
+	c.exec(s)
+	c.exec(Step{Op: "unhold"})
+}
 
 func barrier() []byte { return h2peer.RawFrame(0xbb, 0, 0, []byte("barrier")) }
 
@@ -312,10 +374,18 @@ func runCell(limit uint32, state string, vr variant, others int, st *stats) *con
 	for i := 0; i < others && !c.over(); i++ {
 		c.exec(frameStep("other-stream", getES(fresh())))
 	}
+	ceArmed := false
+	if state == ceState && !c.over() {
+		// the offending frame names an idle id below the target
+		ceArmed = c.connErrorInFlight(len(vr.name)+others, fresh())
+		if !ceArmed {
+			c.inconclusive("rig", "reference does not classify the frame chosen to draw a connection error as CE")
+		}
+	}
 	T := fresh()
 	if !c.over() {
 		switch state {
-		case "idle":
+		case "idle", ceState:
 		case "open":
 			c.exec(frameStep("open", postOpen(T, 5, "")))
 		case "half-closed-remote":
@@ -357,6 +427,13 @@ func runCell(limit uint32, state string, vr variant, others int, st *stats) *con
 			b.NoFence = true
 			c.exec(b)
 			c.exec(Step{Op: "unhold"})
+		} else if ceArmed {
+			x.NoFence = true
+			c.exec(x)
+			if T+2 >= next {
+				next = T + 4
+			}
+			c.behindConnError(fresh())
 		} else {
 			c.exec(x)
 		}
@@ -726,6 +803,19 @@ func runSequence(limit uint32, legal bool, seed int64, st *stats) *conn {
 			break
 		}
 		c.exec(s)
+	}
+	if !legal && !c.over() && rng.Intn(6) == 0 && !c.ref.InBlock() && !c.sawGrace && !c.ref.ClientGoAway && !c.ref.ServerGoAway {
+		// the script ends in a connection error whose GOAWAY is held back by a blocked
+		// write, with more frames (among them a new request) right behind it
+		if c.connErrorInFlight(rng.Intn(len(connErrFrames)), g.fresh()) {
+			for i, n := 0, rng.Intn(3); i < n && !c.over() && !c.broken; i++ {
+				if s, ok := g.step(); ok && s.Op == "frames" {
+					s.NoFence = true
+					c.exec(s)
+				}
+			}
+			c.behindConnError(g.fresh())
+		}
 	}
 	// wind down: every handler still gated answers; then (legal scripts) a client GOAWAY
 	for !c.over() {
